@@ -659,6 +659,10 @@ impl FeoxStore {
         }
         let Some(limit) = self.max_memory else {
             usage.fetch_add(amount, Ordering::Relaxed);
+            #[cfg(feature = "verif")]
+            if crate::verif::flag("mem_points") {
+                crate::verif::point("mem_reserved", amount as u64, 0);
+            }
             return Ok(MemoryReservation { usage, amount });
         };
         let mut current = usage.load(Ordering::Relaxed);
@@ -668,6 +672,14 @@ impl FeoxStore {
                 return Err(FeoxError::OutOfMemory);
             }
             match usage.compare_exchange_weak(current, next, Ordering::Relaxed, Ordering::Relaxed) {
+                // hook only: the guard reports the successful reservation and never matches
+                #[cfg(feature = "verif")]
+                Ok(_) if {
+                    if crate::verif::flag("mem_points") {
+                        crate::verif::point("mem_reserved", amount as u64, 0);
+                    }
+                    false
+                } => {}
                 Ok(_) => return Ok(MemoryReservation { usage, amount }),
                 Err(observed) => current = observed,
             }
@@ -677,6 +689,10 @@ impl FeoxStore {
     #[inline]
     pub(super) fn release_memory(&self, amount: usize) {
         self.stats.memory_usage.fetch_sub(amount, Ordering::Relaxed);
+        #[cfg(feature = "verif")]
+        if crate::verif::flag("mem_points") {
+            crate::verif::point("mem_released", amount as u64, 0);
+        }
     }
 
     pub(super) fn calculate_record_size(&self, key_len: usize, value_len: usize) -> usize {
